@@ -1,6 +1,7 @@
 (* driver <suite> <cases> <out>: run the extracted Coq model on each case line *)
 let suites : (string * (string -> string)) list = [
   ("smap", Suite_smap.run);
+  ("lex", Suite_lex.run);
 ]
 
 let () =
